@@ -755,6 +755,34 @@ fn run_tree<F: Float + Bits, L: Lab>(p: &P, k: usize, c: TreeCfg) -> Fingerprint
     f
 }
 
+/// cross-validation twice on one weighted dataset object: the first pass must leave nothing
+/// behind (rows, targets, WEIGHTS) that the second could see
+fn tree_cv_twice_weighted(p: &P) -> Fingerprint {
+    let mut f = Fingerprint::new();
+    let (mut ds, _, _) = tree_dataset::<f64, usize>(p, 3, true);
+    let weights_before: Vec<u64> = ds.weights().map(|w| w.iter().map(|v| v.to_bits() as u64).collect()).unwrap_or_default();
+    let params = vec![tree_params::<f64, usize>(TREE_CFG_MODEL), tree_params::<f64, usize>(TREE_CFG_MODEL_E)];
+    let k = p.pick(3, 4, 5);
+    let eval = |pred: &Array1<usize>, truth: &ndarray::ArrayView1<usize>| -> linfa::error::Result<f64> { Ok(pred.iter().zip(truth.iter()).filter(|(a, b)| a == b).count() as f64 / pred.len().max(1) as f64) };
+    let mut digests = Vec::new();
+    for pass in 0..2 {
+        let r: linfa::error::Result<Array1<f64>> = ds.cross_validate_single(k, &params, eval);
+        let mut g = Fingerprint::new();
+        match r {
+            Ok(scores) => g.arr("scores", &scores),
+            Err(e) => g.err("cv", &e),
+        }
+        if pass == 0 {
+            f.extend("first.", g.clone());
+        }
+        digests.push(g.digest());
+    }
+    f.must_agree("cross_validation_scores_of_two_passes_over_one_weighted_dataset", digests[0], digests[1]);
+    let weights_after: Vec<u64> = ds.weights().map(|w| w.iter().map(|v| v.to_bits() as u64).collect()).unwrap_or_default();
+    f.must_agree("sample_weights_before_and_after_cross_validation", crate::fp::fnv(&weights_before.iter().flat_map(|v| v.to_le_bytes()).collect::<Vec<u8>>()), crate::fp::fnv(&weights_after.iter().flat_map(|v| v.to_le_bytes()).collect::<Vec<u8>>()));
+    f
+}
+
 const TREE_CFG_MODEL: TreeCfg = TreeCfg { quality: Some(SplitQuality::Gini), max_depth: Some(Some(3)), weighted: true, ..TREE_DEFAULT };
 const TREE_CFG_MODEL_E: TreeCfg = TreeCfg { quality: Some(SplitQuality::Entropy), max_depth: Some(None), weighted: true, ..TREE_DEFAULT };
 
@@ -942,6 +970,7 @@ fn register_trees(r: &mut Registry) {
 
     const T_M: &[&str] = &["DecisionTree", "TreeNode"];
     let c20 = Some((Kind::Claim, false));
+    r.scenario("tree_cv_twice_weighted", K, Kind::Claim, false, tree_cv_twice_weighted);
     r.model::<DecisionTree<f64, usize>>("tree_model_usize", K, T_M, c20, build_tree::<usize>, fp_tree_model::<usize>, Some(|a, b| a == b));
     r.model::<DecisionTree<f64, String>>("tree_model_string", K, T_M, c20, build_tree::<String>, fp_tree_model::<String>, Some(|a, b| a == b));
     r.model::<DecisionTree<f64, Option<String>>>("tree_model_option_string", K, T_M, None, build_tree::<Option<String>>, fp_tree_model::<Option<String>>, Some(|a, b| a == b));
